@@ -16,4 +16,4 @@ json.dump(m,open('/verif/seeded/$ID/meta.json','w'),indent=1)
 print('$ID', m['confirmed'], {p:(c['caught'], [d.get('signature') or d.get('broken') for d in c['first']]) for p,c in m['our_checks'].items()})
 PY
 # a seeded change to a data table leaves regenerated coq/Gen/*.v (and their objects) behind: rebuild from /repo
-(cd /verif && ./setup.sh > /dev/null 2>&1) || echo "WARNING: rebuild after seed failed"
+[ -n "$KEEP_SEED_NO_REBUILD" ] || (cd /verif && ./setup.sh > /dev/null 2>&1) || echo "WARNING: rebuild after seed failed"
